@@ -1,5 +1,6 @@
 import DriverFS.Str
 import DriverFS.FP
+import DriverFS.Extract
 /-! Line-protocol driver for the FS family (strings, floating point, model-value extraction): one request per line,
 first token selects the handler.  Imports only core-Lean model files under Claripy/ (never Mathlib). -/
 
@@ -10,6 +11,7 @@ def dispatch (line : String) : String :=
   | "codec" :: args => DriverFS.Str.handleCodec args
   | "fp" :: args => DriverFS.FP.handleFold args
   | "fpspec" :: args => DriverFS.FP.handleSpec args
+  | "ext" :: args => DriverFS.Extract.handle args
   | _ => "bad-op"
 
 partial def loop (h : IO.FS.Stream) (out : IO.FS.Stream) : IO Unit := do
